@@ -810,3 +810,17 @@ def run(run, tier, seed, replay=None):
     run.sample(dict(stream="pairs", kinds=j["kinds"], ops=j["user_ops"]))
     j = results[3][1][0]
     run.sample(dict(stream="random", kinds=j["kinds"], ops=j["user_ops"]))
+    # C04E (appended hook): the bridge books -> design + the pipeline model against the implementation's package, per history
+    from . import c04e
+    c04e.run_tie(run, tier, seed, results)
+
+
+# C04E (appended): cases of the stream `anonrefs` live in the extended world of harness/impl/c04e.py; their replay goes there
+_run_c04 = run
+
+
+def run(run_, tier, seed, replay=None):
+    if replay is not None and replay.get("case", {}).get("world") == "c04e":
+        from . import c04e
+        return c04e.replay2(run_, replay)
+    return _run_c04(run_, tier, seed, replay)
